@@ -474,7 +474,7 @@ fn main() {
         meta.oblige("non-class entries and directories were present", rep.get("entries.other") >= need && rep.get("entries.dir") >= need);
         meta.oblige("corpus jars were remapped", rep.get("jars.corpus") >= 20);
         meta.oblige("no generated name was rejected by a checked constructor, no harness conversion failed", rep.get("harness.input_rejected_by_checked_constructor") + rep.get("harness.to_quill_failed") + rep.get("harness.jar_build_failed") + rep.get("harness.namespace") + rep.get("harness.remapper_build_failed") + rep.get("harness.remapper_refused_a_reference") == 0);
-        for t in ["two classes swap names", "inner class follows outer", "package move", "class mapped to itself", "entry without from/to name", "overloaded method", "same field name, two descriptors"] { meta.oblige(format!("scenario `{t}` occurred"), rep.sets.get("scenario").is_some_and(|s| s.contains(t))); }
+        for t in ["two classes swap names", "inner class follows outer", "package move", "class mapped to itself", "entry without from/to name", "overloaded method", "same field name, two descriptors", "package-info class moved with its package", "class named *-info renamed"] { meta.oblige(format!("scenario `{t}` occurred"), rep.sets.get("scenario").is_some_and(|s| s.contains(t))); }
     }
     std::process::exit(finish(&ctx, rep, meta));
 }
